@@ -196,6 +196,11 @@ def enumerate_cases(tier, seed):
                 tgt = [1, 3, 0, 5] if tt is None else [*tt, 1, 3, 0, 5]
                 cases.append({"fam": "range", "sub": "time", "res": res, "tgt": tgt, "tshape": [nframes, ROWS, COLS],
                               "times": 3})
+    # the same range pairs assigned through the attributes of an existing Calibration (built with other, valid ranges)
+    nrange = len(cases)
+    for i in range(nrange):
+        if thorough or i % 2 == 0:
+            cases.append(dict(cases[i], via="setter"))
     # fitness configurations
     for func in FUNCS:
         for ntargets in (1, 2, 3):
@@ -257,7 +262,8 @@ def expected_size(tier, seed):
     fit = len(FUNCS) * 3 * ((3 + 4) + (3 + 4) + (3 + 4))
     combos = 3 * 2 * 2 * 2 * 2
     runs = (combos * 2 if thorough else combos // 2 + combos // 4) + 1 + 2
-    return rows + cols + tsize + rsize + time + fit + runs + 8 + 8
+    nrange = rows + cols + tsize + rsize + time
+    return nrange + (nrange if thorough else (nrange + 1) // 2) + fit + runs + 8 + 8
 
 
 # ---------------------------------------------------------------- construction
@@ -434,19 +440,29 @@ def _run_problem(case, seed, td):
 
     def bad(code, what, **extra):
         key = {"fam": fam, "code": code}
+        if case.get("via"):
+            key["via"] = case["via"]
         key.update(extra)
-        viol.append((key, f"{label}: {what}"))
+        viol.append((key, f"{label}{' (ranges assigned through the attributes)' if case.get('via') else ''}: {what}"))
 
     CALLS[0] = 0
     problem, exc = None, None
     try:
-        cal, proc, info = build(td, seed, res=res, tgt=tgt, tshape=tshape, times=times, func=func, ntargets=ntargets,
-                                weights=weights, rtype=rtype, pygmo_seed=1)
+        if case.get("via") == "setter":
+            first = [0, 1, 0, 1] if len(res) == 4 else [0, 1, 0, 1, 0, 1]
+            first_t = [0, 1, 0, 1] if len(tgt) == 4 else [0, 1, 0, 1, 0, 1]
+            cal, proc, info = build(td, seed, res=first, tgt=first_t, tshape=tshape, times=times, func=func,
+                                    ntargets=ntargets, weights=weights, rtype=rtype, pygmo_seed=1)
+            cal.result_fit_range = tuple(res)
+            cal.target_fit_range = tuple(tgt)
+        else:
+            cal, proc, info = build(td, seed, res=res, tgt=tgt, tshape=tshape, times=times, func=func, ntargets=ntargets,
+                                    weights=weights, rtype=rtype, pygmo_seed=1)
         problem, _ = calib.real_problem(cal, proc)
     except Exception as e:  # noqa: BLE001
         exc = e
     calls_at_construction = CALLS[0]
-    sig_base = [fam, decision, why]
+    sig_base = [fam, decision, why, case.get("via")]
     if decision == "either":
         return {"viol": viol, "sig": cfgx.sig(sig_base), "nontrivial": False, "n": 1, "outcome": {"decision": "either"}}
     if decision == "reject":
